@@ -144,7 +144,14 @@ func firstWords(s string) string {
 // for 20 s of real time while no other handle call completed is a call that waited for something
 // (handle calls take nanoseconds). The history so far is reported and the process ends, because a
 // bubble with a goroutine stuck on a lock can never become idle.
-func startWatchdog(t *testing.T, res *vh.Result, events func() []Event) (stop func()) {
+func startWatchdog(t *testing.T, res *vh.Result, allEvents func() []Event) (stop func()) {
+	events := func() []Event { // a spinning store can have logged millions of requests: keep the beginning and the end
+		evs := allEvents()
+		if len(evs) > 400 {
+			evs = append(append([]Event{}, evs[:200]...), evs[len(evs)-200:]...)
+		}
+		return evs
+	}
 	quit := make(chan struct{})
 	go func() {
 		last, since := ReadsDone.Load(), time.Now()
